@@ -153,7 +153,7 @@ def scenario_object(sim: Sim) -> None:
     sb = pm.gen_sysbounds(ch, allow_none=False)
     now = 100.0
     live: dict[int, dict[str, Any]] = {}
-    for step in range(ch.int_between("nops", 6, 30)):
+    for step in range(ch.int_between("nops", 6, sim.scale(30, 70))):
         op = ch.weighted("op", [7, 1, 1, 2])
         if op == 0:
             a = actors[ch.draw("actor", n)]
